@@ -8,7 +8,9 @@ RULE = ("two real SessionManagers joined by a socketpair both adopt as a live se
         "payloads of 0, 1, 63, 64, 65, 127, 128, 4096, 65535, 65536, exactly 1 MiB, 1 MiB + 1, 2 MiB and random lengths (pattern "
         "bytes) go through SessionManager::send back to back, the frame nonces scripted through a link-time "
         "std::random_device; B's message handler records what arrives. mode 3: one send whose frame the harness reads off the "
-        "socket itself (nonce | length | ChaCha20 body, nothing more). mode 2: the harness writes byte streams to B itself: "
+        "socket itself (nonce | length | ChaCha20 body, nothing more). In a third of the mode-1 sequences both ends register a new "
+        "session key for the live session between messages. mode 4: four threads send 8..60 messages at the same time; the "
+        "multiset of delivered payloads is compared. mode 2: the harness writes byte streams to B itself: "
         "well-formed frames (built by the checker's own python ChaCha20) followed by a frame announcing 1 MiB + 1, 2^31, 2^32-1 "
         "with or without bytes after it, frames cut inside nonce / length / body, empty frames, garbage. Oracle "
         "(independent of the model): every payload of at most 1 MiB is delivered exactly once, byte for byte (length, "
@@ -53,10 +55,14 @@ def generate(rng, tier):
     cases = []
     sizes = [0, 1, 63, 64, 65, 127, 128, 129, 4096, 65535, 65536]
 
-    def m1(msgs, key, tag):
+    def m1(msgs, key, tag, rekey=False):
         ints = [1] + key + [len(msgs)]
         for ln, seed in msgs:
             ints += [ln, seed] + [rng.randrange(256) for _ in range(12)]
+            if rekey and rng.random() < 0.3:
+                ints += [1] + [rng.randrange(256) for _ in range(32)]
+            else:
+                ints += [0]
         return {"ints": ints, "tag": tag}
     key = [rng.randrange(256) for _ in range(32)]
     cases.append(m1([(MAX, 5)], key, "one-mib"))
@@ -69,7 +75,14 @@ def generate(rng, tier):
             r = rng.random()
             ln = rng.choice(sizes) if r < 0.6 else (rng.randrange(0, 3000) if r < 0.95 else MAX + rng.choice([1, 2, 1000]))
             msgs.append((ln, rng.randrange(256)))
-        cases.append(m1(msgs, key, "sequence"))
+        cases.append(m1(msgs, key, "sequence" if _ % 3 else "sequence-rekey", rekey=(_ % 3 == 0)))
+    for _ in range(max(8, n // 4)):
+        # four threads sending at the same time: 8..60 messages of 1..3000 bytes (and a few too large)
+        key = [rng.randrange(256) for _ in range(32)]
+        msgs = [((MAX + 1) if rng.random() < 0.03 else rng.choice([1, 5, 64, 65, 700, 3000, rng.randrange(1, 3000)]), rng.randrange(256)) for _ in range(rng.randrange(8, 61))]
+        c = m1(msgs, key, "concurrent")
+        c["ints"][0] = 4
+        cases.append(c)
     for _ in range(n):
         key = [rng.randrange(256) for _ in range(32)]
         ln = rng.choice([0, 1, 63, 64, 65, 127, 128, 129, 300, 4096, rng.randrange(0, 2000)])
@@ -111,9 +124,24 @@ def judge(case, impl, model):
         return {"fail": f"C14|abnormal|{impl[:2]}"}
     if impl and impl[0] in (-9, -10, -11):
         return {"fail": f"C14|setup-or-session-did-not-end|{impl[0]}"}
-    if ints[0] == 1:
+    if ints[0] in (1, 4):
         n = ints[33]
-        msgs = [(ints[34 + 14 * i], ints[35 + 14 * i]) for i in range(n)]
+        msgs = []
+        p = 34
+        for _ in range(n):
+            msgs.append((ints[p], ints[p + 1]))
+            p += 14
+            rk = ints[p]; p += 1
+            if rk:
+                p += 32
+    if ints[0] == 4:
+        want = sorted((len(pattern(ln, seed)), checksum(pattern(ln, seed))) for ln, seed in msgs if ln <= MAX)
+        cnt = impl[0]
+        got = [(impl[1 + 2 * i], impl[2 + 2 * i]) for i in range(cnt)]
+        if got != want:
+            return {"fail": "C14|concurrent-sends-not-delivered-exactly-once"}
+        return {"nontrivial": True}
+    if ints[0] == 1:
         if len(impl) < n + 1:
             return {"fail": "C14|output-shape"}
         sent = impl[:n]
